@@ -4311,11 +4311,12 @@ where
         } else if num_vertices == D + 1 {
             // Build initial simplex from all D+1 vertices
             let all_vertices: Vec<_> = self.tds.vertices().map(|(_, v)| *v).collect();
-            let new_tds = Self::build_initial_simplex(&all_vertices).map_err(|e| {
+            let mut new_tds = Self::build_initial_simplex(&all_vertices).map_err(|e| {
                 InsertionError::CavityFilling {
                     message: format!("Failed to build initial simplex: {e}"),
                 }
             })?;
+            new_tds.adopt_generation_from(&self.tds);
 
             // Replace empty TDS with simplex TDS (preserve kernel)
             self.tds = new_tds;
